@@ -22,6 +22,7 @@ SPELL = {
     "jr:requiredMsg": ["required_message", "requiredmsg", "bind::jr:requiredMsg", "required message"],
     "calculate": ["calculation", "calculate", "bind::calculate", "Calculation"],
     "custom_a": ["bind::custom_a"],
+    "jr:noAppErrorString": ["noAppErrorString", "no_app_error_string", "bind::jr:noAppErrorString"],
     "odk:length": ["bind::odk:length"],
 }
 CONVERTIBLE = {"readonly", "required", "relevant", "constraint", "calculate"}
@@ -128,6 +129,16 @@ def build(shapes, seed=0, mode="binds", formname="data", homonyms=False):
             continue
         if shape == "audit":
             row["type"] = "audit"
+            if mode == "binds" and sum(1 for sh, _ in shapes if sh == "audit") == 1 and rnd.random() < 0.7:
+                # audit parameters become odk: attributes of the bind of /<form>/meta/audit; each parameter keeps its own attribute
+                opts = [("track-changes", rnd.choice(["true", "false"])), ("track-changes-reasons", "on-form-edit"), ("identify-user", rnd.choice(["true", "false"]))]
+                chosen = [o for o in opts if rnd.random() < 0.6]
+                if rnd.random() < 0.4:
+                    chosen += [("location-priority", rnd.choice(["balanced", "high-accuracy", "low-power", "no-power"])), ("location-min-interval", "60"), ("location-max-age", "120")]
+                if chosen:
+                    rnd.shuffle(chosen)
+                    row["parameters"] = rnd.choice([" ", ";", ", "]).join(f"{k}={v}" for k, v in chosen)
+                    f.binds.append([["meta", "audit"], [[f"odk:{k}", v, "lit"] for k, v in chosen]])
             f.rows.append(row)
             continue
         path = [s for s, _ in f.stack] + [name]
@@ -173,7 +184,7 @@ def build(shapes, seed=0, mode="binds", formname="data", homonyms=False):
             attrs.append(["calculate", f"1 + {n}", "lit"])
         ref = "${" + rnd.choice(f.qnames) + "}" if f.qnames and rnd.random() < 0.5 else None
         if mode == "binds" and shape != "note_noname":
-            cols = ["relevant"] if is_section else ["relevant", "required", "readonly", "constraint", "jr:constraintMsg", "jr:requiredMsg", "custom_a", "odk:length"]
+            cols = ["relevant"] if is_section else ["relevant", "required", "readonly", "constraint", "jr:constraintMsg", "jr:requiredMsg", "custom_a", "odk:length", "jr:noAppErrorString"]
             if f.single_colon:
                 # with the legacy ':' delimiter only the jr: prefix is re-joined (process_header); other prefixes need '::'
                 cols = [c for c in cols if c != "odk:length"]
@@ -203,6 +214,16 @@ def build(shapes, seed=0, mode="binds", formname="data", homonyms=False):
                     kind = "lit"
                     exp = f"jr:itext('/{formname}/{'/'.join(path)}:{c}')"
                     row[f.hdr(c) + ("::" if not f.single_colon else ":") + "French (fr)"] = f"msg {u} fr"
+                elif c == "jr:noAppErrorString":
+                    # (an untranslated message stays on the bind, with its references substituted; only a translated one goes through itext)
+                    if ref and rnd.random() < 0.5:
+                        val = f"install {u} {ref} first"
+                        kind = "norm"
+                        exp = norm_src_expr(val)
+                    else:
+                        val = f"install {u} first"
+                        kind = "lit"
+                        exp = val
                 elif c in ("jr:constraintMsg", "jr:requiredMsg"):
                     if ref and rnd.random() < 0.3:
                         val = f"msg {u} {ref} end"
